@@ -29,7 +29,7 @@ func C11(ctx *Ctx) {
 	R.Explanation = "attach-model: System.CreateEmulator is interpreted along its single feasible path with its counted loops unrolled (all loop bounds are constants); every call of Bus.Attach is recorded with its constant start/end and the backend value (a memory.RAM over a constant sub-slice of System.ROM/SRAM/WRAM with a constant address offset, or the fake I/O block). With Attach's semantics (justified structurally by C13/attach: last writer of table[start>>4..end>>4] wins, aligned ranges only) this gives, per 8 KiB page, the backing array and index base. agree: for every page that is backed by ROM/SRAM/WRAM in the emulator and mapped by LoROM's page summary (C05 machinery), the class is the same and pak - classBase equals sliceOffset + (address - ramOffset); the page lies inside the sub-slice. ram: memory.RAM.Read and Write index data[address-offset] with the same term, and Read returns / Write stores at exactly that cell."
 	R.Trusted = []string{"go/packages + go/ssa", "absint (single-path unrolling of counted loops with constant bounds)", "C13/attach and C13/route (routing semantics of the bus)", "C05 page summaries of lorom.BusAddressToPak"}
 	R.Rule("attach-model", "every Attach call of CreateEmulator has constant, 16-byte- and page-aligned bounds and a backend that is a RAM over a constant sub-slice of ROM/SRAM/WRAM or the I/O stub; CreateEmulator is interpretable along one path")
-	R.Rule("agree", "for every 8 KiB page backed by ROM/SRAM/WRAM in the emulator and mapped by the LoROM mapper: same memory class and same linear position")
+	R.Rule("agree", "for every 8 KiB page backed by ROM/SRAM/WRAM in the emulator and mapped by the LoROM mapper: same memory class and same linear position; a page the emulator backs with anything else (I/O stub) is one the mapper leaves unmapped")
 	R.Rule("ram", "memory.RAM.Read/Write access data[address-offset], the same cell for the same address")
 	sysT := ctx.Prog.Pkg("emulator").Type("System")
 	fn := ctx.Prog.Method("emulator", "System", "CreateEmulator")
@@ -154,7 +154,16 @@ func C11(ctx *Ctx) {
 	nBoth := 0
 	for p := 0; p < nPages; p++ {
 		st := pages[p]
-		if st == nil || st.Kind != "RAM" {
+		if st == nil {
+			continue
+		}
+		if st.Kind != "RAM" {
+			// backed by something that is not ROM/SRAM/WRAM (the I/O stub): the mapper
+			// must not assign a memory class to this page
+			if ms := sums.B2P[p]; ms.Kind == SumAffine {
+				bad = append(bad, p)
+				why[p] = fmt.Sprintf("bus %s is backed by %s in the emulator (attach#%d) but the mapper assigns it %s ($%06X)", pageRange(p), st.Desc, st.Seq, pakInputClass(ms.Base), ms.Base)
+			}
 			continue
 		}
 		base, isMem := classBase[st.Array]
